@@ -73,6 +73,11 @@ Theorem C25_multi_sum : forall old batch s,
 Proof. exact mint_multi_sum. Qed.
 Print Assumptions C25_multi_sum.
 
+(* poolSizeUniversal stays within [0, MintPool] whenever it returns. *)
+Theorem C25_pool_size_range : forall b r, 0 <= b -> pool_size b = Ok r -> 0 <= r <= mint_pool.
+Proof. exact pool_size_range. Qed.
+Print Assumptions C25_pool_size_range.
+
 (* ---- distribution --------------------------------------------------------------- *)
 
 (* Whenever a mint transaction is built its outputs sum exactly to the batch
